@@ -545,7 +545,7 @@ fn main() {
     }
     let mut rng = Rng::new(args.seed);
     let nscen = match args.tier {
-        Tier::Quick => 3,
+        Tier::Quick => 2,
         Tier::Thorough => 60,
         Tier::Search => 40,
     };
